@@ -138,8 +138,12 @@ def frame_check(its, ots, unphased):
 
 
 def report(ctx, its, ots, unphased, payload):
-    for sig, detail in frame_check(its, ots, unphased):
-        ctx.oracle_fail(sig, detail, payload)
+    """payload: a function building the replay record (only called when something is wrong)"""
+    bad = frame_check(its, ots, unphased)
+    if bad:
+        pl = payload()
+        for sig, detail in bad:
+            ctx.oracle_fail(sig, detail, pl)
 
 
 # ----------------------------------------------------------------------------- (a) get_modified_ts
@@ -230,7 +234,12 @@ def run_modified(ctx, model_ok):
                 "kwargs": {k: repr(v) for k, v in kw.items()}, "nodes": its.num_nodes, "mutations": its.num_mutations,
                 "migrations": its.num_migrations, "multi_mutation_sites": sum(len(s.mutations) > 1 for s in its.sites()),
                 "mean": [float(x) for x in res.posterior_mean][:8], "mutation_node": [int(x) for x in res.mutation_node][:12]}
-        payload = dict(desc, tables=G.gen.ts_tables_dict(its))
+        extra = method.provenance_params is not None and "extra" in method.provenance_params
+
+        def payload(desc=desc, its=its, cls=cls, sm=sm, kw=dict(kw), res=res, switched=switched, extra=extra):
+            return dict(desc, replay={"fn": "get_modified", "tables": G.tc_to_json(its.dump_tables()), "cls": cls,
+                                      "sm": sm, "kw": G.plain(kw), "extra_params": extra,
+                                      "res": G.results_to_json(res), "switched": switched})
         exc = ots = None
         try:
             ots = method.get_modified_ts(res)
@@ -259,14 +268,16 @@ def run_modified(ctx, model_ok):
             if exc is not None:
                 if isinstance(exc, _tskit.LibraryError):
                     ok = perr is not None or (pred is not None and _invalid(pred))
-                    ctx.corr("get_modified_ts", ok, "impl raised %r; model output passes tskit" % (exc,), replay=payload)
+                    ctx.corr("get_modified_ts", ok, "impl raised %r; model output passes tskit" % (exc,),
+                             replay=None if ok else payload())
                 else:
                     ok = pred is None and perr is None
-                    ctx.corr("get_modified_ts", ok, "impl raised %r; model=%r" % (exc, m[:2]), replay=payload)
+                    ctx.corr("get_modified_ts", ok, "impl raised %r; model=%r" % (exc, m[:2]),
+                             replay=None if ok else payload())
                 continue
             if pred is None:
                 ctx.corr("get_modified_ts", False, "impl returned, model fails with code %r (tskit error %r)" % (
-                    m[1][0] if m[0] == 1 else None, perr), replay=payload)
+                    m[1][0] if m[0] == 1 else None, perr), replay=payload())
                 continue
             diff = G.table_diff(pred, ots.tables)
             # provenance: earlier rows kept, new row's parameter dict
@@ -275,7 +286,8 @@ def run_modified(ctx, model_ok):
             b = [[(k[1].strip('"') if isinstance(k, tuple) else k, v) for k, v in rec] for rec in mc.pred_provs]
             if a != b:
                 diff.append("provenances: impl=%r model=%r" % (a, b))
-            ctx.corr("get_modified_ts", not diff, "columns that differ from the model: %r" % (diff,), replay=payload)
+            ctx.corr("get_modified_ts", not diff, "columns that differ from the model: %r" % (diff,),
+                     replay=payload() if diff else None)
 
 
 def _invalid(pred):
@@ -321,7 +333,9 @@ def run_date(ctx):
                 "nodes": its.num_nodes, "mutations": its.num_mutations, "migrations": its.num_migrations,
                 "individuals": its.num_individuals,
                 "multi_mutation_sites": sum(len(s.mutations) > 1 for s in its.sites())}
-        payload = dict(desc, tables=G.gen.ts_tables_dict(its))
+        def payload(desc=desc, its=its, kw=dict(kw), unphased=unphased):
+            return dict(desc, replay={"fn": "date", "tables": G.tc_to_json(its.dump_tables()), "kw": G.plain(kw),
+                                      "unphased": unphased})
         try:
             ots = tsdate.date(its, **kw)
         except (AssertionError, _tskit.LibraryError, FloatingPointError, ValueError, ZeroDivisionError) as e:
@@ -349,6 +363,24 @@ def search(ctx):
 
 
 def replay(ctx, data):
-    print(json.dumps({k: v for k, v in data.get("case", {}).items() if k != "tables"}, indent=1)[:3000])
-    print(data.get("signature"), data.get("detail"))
-    return False
+    """re-run one saved case; True iff the statement of C02 holds on it"""
+    import tsdate
+    G.quiet_logging()
+    case = data.get("case") or {}
+    r = case.get("replay")
+    if not r:
+        print(json.dumps(case, indent=1)[:3000])
+        return False
+    its = G.tc_from_json(r["tables"]).tree_sequence()
+    if r["fn"] == "date":
+        ots = tsdate.date(its, **G.unplain(r["kw"]))
+        bad = frame_check(its, ots, r["unphased"])
+    else:
+        method = G.make_method(its, r["sm"], r["cls"], **G.unplain(r["kw"]))
+        if r.get("extra_params") and method.provenance_params is not None:
+            method.provenance_params.update({"max_iterations": 3, "extra": [1, 2]})
+        ots = method.get_modified_ts(G.results_from_json(r["res"]))
+        bad = frame_check(its, ots, "any" if r["switched"] else False)
+    for sig, detail in bad:
+        print("property fails:", sig, detail)
+    return not bad
